@@ -7,7 +7,7 @@ from ..sexpr import A, dumps, loads
 from .. import fir
 
 INLINE = 'loki inline'
-TIME_LIMIT = 8
+TIME_LIMIT = 5
 
 
 def h(x):
@@ -637,7 +637,11 @@ def alias_precondition_violated(mode, prog):
 
 def known_hoisted_bounds(mode, prog):
     """(python only) an inlined callee has a local array whose declared bounds mention a variable"""
-    for _, u in call_sites(mode, prog):
+    us = [u for _, u in call_sites(mode, prog)]
+    if mode == 'internal':
+        # every internal procedure is processed (its declarations hoisted), called or not
+        us += [u for u in units(prog) if str(u[1]) != str(prog[1])]
+    for u in us:
         args = {str(a) for a in u[2]}
         for d in u[3]:
             if str(d[1]) not in args and any(ex_names(b[0]) | ex_names(b[1]) for b in d[4]):
@@ -749,18 +753,16 @@ class C28(Prop):
     theorems = ['substM_evalE', 'param_inline_expr_sound']
     design_ref = 'DESIGN.md 4.F C28'
     level = 'proof'
-    level_text = ('inline_sound_partial (Lean, unbounded): for every callee with scalar dummies/locals whose body is a straight-line '
-                  'list of scalar assignments, PRINTs and comments, the body produced by the model of map_call_to_procedure_body '
-                  '(dummy -> actual substitution, renamed locals) run in the caller state reproduces the FIR copy-in/copy-out call: '
-                  'same printed output, same final values of every caller variable other than the hoisted locals, under the decidable '
-                  'conditions (i)-(iv) (written dummies bound to distinct variables, expression actuals do not mention written '
-                  'variables, fresh local names).  _partial: IF/DO/WHILE/SELECT bodies, array dummies and the lifting to the '
-                  'enclosing statement list are covered by correspondence + oracle only.  substM_evalE: substitution lemma for a '
-                  'variable-to-expression map.  param_inline_expr_sound: replacing a PARAMETER name by its value preserves every '
-                  'expression value.  Function inlining: direct oracle only (gfortran, thorough tier).')
+    level_text = ('Proved in Lean (unbounded): substM_evalE — substitution lemma for the dummy->actual map of map_call_to_procedure_body '
+                  '(under the simulation relation ReadsLike between callee frame and caller state every scalar expression evaluates like '
+                  'its substituted form); param_inline_expr_sound — replacing a PARAMETER name by its value preserves every expression '
+                  'value.  NOT proved: the statement-level theorem inline_sound_partial (body simulation, copy-in/copy-out); '
+                  'statement-level behaviour preservation is covered by the correspondence with the Lean model of the transformation on '
+                  'the Covered class plus the direct oracle (interpreter; gfortran in the thorough tier).  Array dummies, constant '
+                  'parameters at statement level and function inlining: direct oracle only.')
     level_note = ('The Lean model inlineProgram follows inline_subroutine_calls/map_call_to_procedure_body for callees with scalar '
                   'declarations (class Covered); array dummies (_map_unbound_dims) are NOT modelled: direct oracle + python-side '
-                  'known classes only.')
+                  'known classes only.  Class predicates over-approximate the failing families.')
     technique = 'Lean 4 theorems about a hand-written model of the transformation on FIR programs + correspondence with the real code'
     rule = ('cases: generated caller/callee pairs with scalar dummies (own generator with placed hazards), fir.gen_program programs '
             'biased to calls (callee names renamed apart with p=0.6), marked (`!$loki inline`) and internal-procedure mode, '
@@ -775,10 +777,10 @@ class C28(Prop):
 
     # ---- generation
     def gen(self, rng, tier):
-        n_scalar = {'quick': 30, 'thorough': 300, 'search': 150}.get(tier, 30)
-        n_fir = {'quick': 8, 'thorough': 120, 'search': 60}.get(tier, 8)
-        n_int = {'quick': 4, 'thorough': 50, 'search': 30}.get(tier, 4)
-        n_param = {'quick': 6, 'thorough': 60, 'search': 40}.get(tier, 6)
+        n_scalar = {'quick': 30, 'thorough': 220, 'search': 150}.get(tier, 30)
+        n_fir = {'quick': 8, 'thorough': 80, 'search': 60}.get(tier, 8)
+        n_int = {'quick': 4, 'thorough': 40, 'search': 30}.get(tier, 4)
+        n_param = {'quick': 6, 'thorough': 40, 'search': 40}.get(tier, 6)
         n_in = 2 if tier == 'quick' else 3
         for j in range(n_scalar):
             prog = gen_scalar_program(rng)
@@ -805,7 +807,7 @@ class C28(Prop):
             yield Case([A('param'), prog, inputs, A('gf' if gf else 'nogf')], stream='param',
                        nontrivial=any(h(d[5]) is not None for u in units(prog) for d in u[3]))
         if tier != 'quick':
-            for j in range({'thorough': 40, 'search': 20}.get(tier, 0)):
+            for j in range({'thorough': 24, 'search': 12}.get(tier, 0)):
                 yield Case(gen_fun_request(rng), stream='fun')
 
     # ---- real code
